@@ -85,12 +85,16 @@ class _TabulationCutoff(object):
       raise ConfigParserException("'{cutoff}', '{nr}' and '{dr}' cannot all be spcified in [Tabulation] section of potential definition.".format(**self._template_dict))
     elif nr and dr:
       # Set cutoff
-      cutoff = (nr-1)*dr      
+      cutoff = (nr-1)*dr
+      if cutoff in (float("inf"), float("-inf")):
+        raise ConfigParserException("'{nr}' and '{dr}' in [Tabulation] section of potential definition give a '{cutoff}' that is not a finite number.".format(**self._template_dict))
     elif cutoff and dr:
       # Set nr
       # The quotient of two decimal fractions is rarely exact (0.3/0.1 = 2.9999999999999996),
       # round it before truncation so that a cutoff that is a whole multiple of dr keeps its last row.
       nr = round(cutoff/dr, 8) + 1
+      if nr != nr or nr in (float("inf"), float("-inf")):
+        raise ConfigParserException("'{cutoff}' and '{dr}' in [Tabulation] section of potential definition do not give a finite number of rows.".format(**self._template_dict))
       nr = int(nr)
     elif not dr is None:
       raise ConfigParserException("'{dr}' cannot be specified without either '{nr}' or '{cutoff}' in [Tabulation] section of potential definition.".format(**self._template_dict))
